@@ -27,6 +27,12 @@ CHECKS = {
  "C10": dict(level=MC, technique="TLA+ model (Engine.tla resume decision list + AssetFault actions) + replay incl. asset faults + trace validation (EngineTrace.tla)",
    text="The resume decision list (reject 101/102/103 before anything is touched; fail the session for missing flow, resume limit, vanished node, node without wait) is model checked with asset faults as independently enabled actions; behaviours including faults are replayed (assets rebuilt, session re-read) and TLC checks on every recorded call that a rejected resume left the session JSON byte-identical with no events and that impossible resumes end the session failed with a failure event.",
    note="Trusted: harness projection; byte comparison of json.Marshal(session) done in Go and logged as a boolean; fault kinds flow_gone/node_gone/wait_gone.", ref="4 C10"),
+ "C14": dict(level=MC, technique="TLA+ model of query trees, Format/Parse/Simplify and of the STRING lexer rule vs strconv.Quote (ContactQL.tla) checked by TLC; enumerated trees and adversarial values built/escaped, formatted and parsed by the real parser; structural comparisons by TLC (QLTrace.tla)",
+   text="ContactQL.tla proves within bounds that Format/Parse/Simplify round-trip on all trees (depth 2, fan-out 3) and that a quoted value followed by more query text lexes to exactly that value for every class sequence over quote/backslash/other - and shows that the generated lexer's longest-match rule breaks this (negative run, known finding). Every enumerated tree (4 pools of concrete conditions) and value (13 instantiations, 4 template positions, constructors and ContactQueryEscaping) goes through the real Stringify/ParseQuery twice; TLC checks parsed = Simplify(built), parse(format(parse)) = parse and that an escaped value yields exactly the template's structure. Random query texts over the whole grammar (implicit conditions, aliases, implicit AND, both redaction policies) are round-tripped as direction B.",
+   note="Trusted: tree extraction through public accessors. Violations for values ending in a backslash before another quoted literal are a listed known finding (generated lexer).", ref="4 C14"),
+ "C15": dict(level=MC, technique="TLC checks the algebra of C15 (QLTrace.tla: Compositional, Trichotomy, Unions, Negation, EmptyOK, AbsentOK, CalendarDay, NumberOrder) between logged results of the real evaluator on a boundary grid",
+   text="For every property kind (number, datetime, text, URN single/multi-valued, location) the real ParseQuery+EvaluateQuery answer a bundle of related queries (<, <=, =, >=, >, !=, = \"\", != \"\") on contacts whose values sit on numeric and local-midnight boundaries (+-1s, +-1 day, DST transition days) in five zones and three date formats, and random AND/OR/implicit-AND combinations in nested and flat textual forms; TLC checks exactly-one-of, unions, negation, composition, absence/presence and the calendar-day reading (day numbers from Go's time package) on the logged booleans.",
+   note="Trusted: Go time/decimal for day numbers and number order. Unsimplified trees cannot be evaluated through the public API.", ref="4 C15"),
  "C18": dict(level=MC, technique="TLA+ decision function (LocCore.tla) enumerated exhaustively over the configuration lattice (Localization.tla); every configuration replayed on the engine; TLC recomputes the expected language of each part from the logged configuration (LocalizationTrace.tla)",
    text="The fallback chain (contact language if allowed, environment default, flow base; first that is base or has a non-empty translation; [] and [\"\"] count as absent; text/attachments/quick replies independent; message locale from the text's language; category_localized) is a finite decision function. TLC enumerates the whole lattice (61k configurations quick, ~550k thorough), each becomes an environment + contact + flow run on the real engine, and TLC compares msg_created text/attachments/quick replies/locale and the result's localized category with the function.",
    note="Trusted: decoding of planted values by the harness. The bounded space is the space (3 languages, allowed lists <=2).", ref="4 C18"),
